@@ -5,8 +5,10 @@
  outcome merged into meta.json. The worktree is reset afterwards (and removed with --remove)."""
 import glob, json, os, re, shutil, subprocess, sys
 d, name = os.path.abspath(sys.argv[1]), sys.argv[2]
-WT = "/tmp/confirm-wt"
-env = dict(os.environ, CARGO_NET_OFFLINE="true", CARGO_TARGET_DIR="/tmp/confirm-target")
+SLOT = os.environ.get("CONFIRM_SLOT", "")   # several confirmations may run side by side, one slot each
+WT = "/tmp/confirm-wt" + SLOT
+TARGET = "/tmp/confirm-target" + SLOT
+env = dict(os.environ, CARGO_NET_OFFLINE="true", CARGO_TARGET_DIR=TARGET)
 def sh(cmd, cwd=WT, timeout=3600):
     p = subprocess.run(cmd, cwd=cwd, env=env, shell=isinstance(cmd, str), capture_output=True, text=True, timeout=timeout)
     return p.returncode, p.stdout + p.stderr
@@ -46,6 +48,8 @@ if res["confirmed"]:
     shutil.copytree(d, dst)
     meta = json.load(open(os.path.join(dst, "meta.json")))
     meta["confirmed_by_me"] = res
+    if os.path.exists(os.path.join(d, "first_trial.txt")):
+        meta["first_trial"] = open(os.path.join(d, "first_trial.txt")).read().strip()
     if os.path.exists(os.path.join(d, "result.json")):
         meta["check_result"] = json.load(open(os.path.join(d, "result.json")))
     json.dump(meta, open(os.path.join(dst, "meta.json"), "w"), indent=1)
@@ -53,4 +57,4 @@ if res["confirmed"]:
         os.remove(os.path.join(dst, "result.json"))
 if "--remove" in sys.argv:
     subprocess.run(["git", "-C", "/repo", "worktree", "remove", "--force", WT])
-    shutil.rmtree("/tmp/confirm-target", ignore_errors=True)
+    shutil.rmtree(TARGET, ignore_errors=True)
